@@ -198,6 +198,13 @@ func doReplay(id, path string) int {
 		fmt.Printf("%s: witness %s no longer fails (%s)\n", id, path, what)
 		return 0
 	}
+	var lw struct {
+		Depth int `json:"ladder_depth"`
+		Kind  int `json:"ladder_kind"`
+	}
+	if err := json.Unmarshal(rec.Witness, &lw); err == nil && lw.Depth > 0 {
+		return replayLadder(id, path, lw.Depth, lw.Kind)
+	}
 	if fn, ok := replayers[id]; ok {
 		return fn(path, rec.Witness)
 	}
